@@ -4,7 +4,7 @@ Require Import Floats.SpecFloat.
 Require Import ZArith Bool List Lia Reals Lra.
 From Flocq Require Import Core BinarySingleNaN.
 From Dasp Require Import Base.Res Base.Float Dsp.MInt Dsp.EnvNum Dsp.EnvNumR Dsp.Peak Dsp.Envelope
-  Dsp.PeakProofs Dsp.EnvelopeProofs Dsp.EnvelopeIEEE Dsp.EnvelopeRun.
+  Dsp.PeakProofs Dsp.EnvelopeProofs Dsp.EnvelopeIEEE Dsp.EnvelopeIntProofs Dsp.EnvelopeRun.
 Import ListNotations.
 Open Scope Z_scope.
 
@@ -65,9 +65,6 @@ Example between_ieee_refuted :
 Proof. vm_compute. repeat split. Qed.
 
 (* ---- known class K2 ---- *)
-Definition KnownClass_K2 (f : ifmt) (which : Z) (frames : list (list Z)) : Prop :=
-  (which = 0 \/ which = 2) /\ exists fr, In fr frames /\ In (imin f) fr.
-
 Definition e_inv : f32 := F32.of_bits 1052531378.   (* powf(E, -1/1) *)
 
 (* negative half wave: the detected value is MIN and -d overflows *)
@@ -96,3 +93,18 @@ Example ex_run_check :
   check (ECase 0 1 2 0 1065353216 1065353216 0 [EFrame [-127]; EFrame [-100]],
          [[22; 1052531378; 1052531378; 1052531378; 1052531378]; [20; -81; -127]; [20; -94; -100]]) = true.
 Proof. vm_compute. reflexivity. Qed.
+
+(* the integer run theorem applies to a concrete history (negative half wave, i8, two channels,
+   rising then falling, no sample at the minimum) and the run is the expected one *)
+Example ex_int_run :
+  let dt := idet_new (peak_out_fmt I8 2) 2 e_inv e_inv in
+  let frames := [[-127; -3]; [-100; -90]; [5; -120]] in
+  f32_unit e_inv = true /\ ~ KnownClass_K2 I8 2 frames /\
+  Forall (fun fr => Forall (in_range I8) fr /\ length fr = length (ilast dt)) frames /\
+  idet_run I8 2 dt frames = Ok [[-81; -2]; [-94; -58]; [-34; -98]].
+Proof.
+  cbv zeta. split; [vm_compute; reflexivity|]. split; [|split].
+  - intros [_ (fr & I & M)]. cbn in I. destruct I as [<-|[<-|[<-|[]]]]; cbn in M; intuition lia.
+  - repeat constructor; unfold in_range; cbn; lia.
+  - vm_compute. reflexivity.
+Qed.
